@@ -1,3 +1,4 @@
 import PynProofs.Restrict
 import PynProofs.FixIset
 import PynProofs.SetOps
+import PynProofs.Search
